@@ -109,6 +109,7 @@ PROPS["C16"] = dict(
         dict(name="concurrent", run="^TestC16RapidConcurrent$", checks=(4000, 20000), shards=(2, 8), timeout=(200, 900),
              race=(False, True)),
         dict(name="long_runs", run="^TestC16LongRuns$", shards=(4, 8), timeout=(200, 600)),
+        dict(name="word_runs", run="^TestC16WordRuns$", shards=(2, 3), timeout=(200, 600)),
         dict(name="big_copies", run="^TestC16BigCopies$", shards=(2, 3), timeout=(200, 600)),
         dict(name="first_use", run="^TestC16FirstUse$", shards=(2, 8), timeout=(200, 900)),
         dict(name="first_use_race", run="^TestC16FirstUse$", enabled=(False, True), shards=8, timeout=(200, 900), race=(False, True),
